@@ -493,8 +493,8 @@ var hTypePool = []string{"VerifiableCredential", "ExampleCredential", "OtherCred
 //
 //	scope 0 (H01a):  every type list, context/issuer/id presence, expiry, validAt; JSON-LD credential with one proof
 //	                 whose key id is the issuer's and whose window equals the credential's issuance.
-//	scope 1 (H01a2): required fields present, types [VerifiableCredential, ExampleCredential], no expiry, no stored
-//	                 revocation; every proof format / retained source / number of proofs / key id / proof window.
+//	scope 1 (H01a2): required fields present, type [VerifiableCredential], no expiry, no stored revocation; every
+//	                 proof format / retained source / number of proofs / key id / proof window.
 func hVerifyScenario(id string, scope int) {
 	w := hNewWorld()
 	vAssume(w.vmKind <= 3)
@@ -502,8 +502,8 @@ func hVerifyScenario(id string, scope int) {
 	// --- the credential, field by field
 	var c vc.VerifiableCredential
 	pool := vParam("typepool", 2)
-	nTypes := 2
-	typeIdx := []int{0, 1}
+	nTypes := 1
+	typeIdx := []int{0}
 	hasContext, hasID := true, true
 	issuerPool := []string{"did:web:alice", "https://issuer.example", ""}
 	var issuer string
@@ -579,7 +579,10 @@ func hVerifyScenario(id string, scope int) {
 	}
 	hasRaw := format >= 2
 	if scope == 1 {
-		vAssume(hAnd(w.storeMode == 0, w.statusMode != 1))
+		vAssume(hAnd(w.storeMode == 0, w.statusMode == 0))
+		if vParam("proofexp", 1) == 0 {
+			vAssume(!w.proofHasExpires)
+		}
 	}
 
 	// --- trust configuration: per non-base type a list whose second entry differs from the issuer at most in its
